@@ -1469,6 +1469,9 @@ pub fn build(d: &mut Dna, cfg: &GenCfg) -> Built {
         if has_fields && spec.all_fields().any(|f| !f.attrs.is_empty()) && d.chance(60) {
             m |= 4;
         }
+        if spec.has(Tr::Into) && d.chance(60) {
+            m |= 8;
+        }
         if m != 0 {
             spec.via_macro = m;
             classes.push("definition_via_macro_rules");
